@@ -691,6 +691,34 @@ class TreeRun(object):
 
 
 ALIGNED_KINDS = ["slice", "pixslice", "mask", "roi2d_pix", "range_pix", "empty", "slice", "pixslice"]
+NARY_SIZES = list(range(2, 21)) + [33]
+NARY_FORMS = ["cm_and", "cm_or", "cm_xor", "multior", "chain_left", "chain_right", "chain_left", "chain_right"]
+
+
+def nary_tree(rng, n, nleaf, form):
+    """n operands (leaf positions; n > nleaf repeats leaf objects) combined by one n-ary form."""
+    ops = list(range(nleaf)) + [rng.randrange(nleaf) for _ in range(max(0, n - nleaf))]
+    ops = ops[:n]
+    rng.shuffle(ops)
+    kids = [["leaf", k] for k in ops]
+    if rng.random() < 0.3:
+        j = rng.randrange(n)
+        kids[j] = [rng.choice(["not", "cls_not"]), kids[j]]
+    if form in NARY_NODES:
+        return [form, kids]
+    op = rng.choice(["and", "or", "xor", "cls_and", "cls_or", "cls_xor", "s_or", "g_xor"])
+    mixed = rng.random() < 0.25
+    pick = (lambda: rng.choice(["and", "or", "xor"])) if mixed else (lambda: op)
+    if form == "chain_left":
+        t = kids[0]
+        for k in kids[1:]:
+            t = [pick(), t, k]
+        return t
+    t = kids[-1]
+    for k in reversed(kids[:-1]):
+        t = [pick(), k, t]
+    return t
+
 
 
 def run_tree_program(ctx, rng, max_depth, with_incompat=False, forced=None, label="random", flavour=None):
@@ -709,6 +737,46 @@ def run_tree_program(ctx, rng, max_depth, with_incompat=False, forced=None, labe
     W = L.make_world(rng, shape=shape)
     nleaf = rng.randint(3, 8)
     target = "d"
+    if flavour == "nary":
+        # many operands: n from {2..20, 33}, distinct leaf kinds first, then repeated leaf objects
+        n = rng.choice(NARY_SIZES)
+        kinds = L.leaf_kinds(W)
+        rng.shuffle(kinds)
+        descs = [L.rand_leaf(rng, W, k) for k in kinds[:min(n, len(kinds), 12)]]
+        form = rng.choice(NARY_FORMS)
+        tree = nary_tree(rng, n, len(descs), form)
+        if rng.random() < 0.3:
+            tree = [rng.choice(BINARY_NODES), tree, ["leaf", 0]]
+        ctx.count("nary_programs")
+        ctx.count("nary_programs:form:" + form)
+        ctx.count("nary_programs:operands:%d" % n)
+        TreeRun(ctx, W, descs, tree, rng, "nary").run()
+        return
+    if flavour == "nan_not":
+        # the complement of an ordering inequality on an attribute containing NaN selects the NaN elements
+        for _ in range(20):
+            names = [a for a in ("v", "be") if a in W.atts and np.isnan(W.full(a).astype(float)).any()]
+            if names:
+                break
+            W = L.make_world(rng)
+        else:
+            ctx.count("excluded:no_attribute_with_nan")
+            return
+        descs = []
+        for a in names + [rng.choice(names)]:
+            descs.append({"k": rng.choice(["ineq", "ineq_rev"]), "att": a, "op": rng.choice(["gt", "ge", "lt", "le"]),
+                          "val": L.pick_value(rng, W, a)})
+        descs.append(L.rand_leaf(rng, W))
+        inner = ["leaf", rng.randrange(len(descs) - 1)]
+        tree = [rng.choice(UNARY_NODES), inner]
+        r = rng.random()
+        if r < 0.3:
+            tree = [rng.choice(BINARY_NODES), tree, ["leaf", len(descs) - 1]]
+        elif r < 0.5:
+            tree = ["multior", [tree, ["not", ["leaf", 0]], ["leaf", len(descs) - 1]]]
+        ctx.count("not_of_ordering_inequality_on_attribute_with_nan")
+        TreeRun(ctx, W, descs, tree, rng, "nan_not").run()
+        return
     if flavour == "aligned":
         target = "p"
         descs = []
@@ -1171,7 +1239,8 @@ def systematic_block(ctx, rng, kind_a):
 ALL_LEAF_KINDS = L.LEAF_KINDS_ANY + L.LEAF_KINDS_1D + L.LEAF_KINDS_WORLD
 
 
-FLAVOURS = [None, None, None, "near_equal", "aligned", "aligned", None, "joined", None, "large", None, "zero_size"]
+FLAVOURS = [None, "nary", None, "near_equal", "aligned", "nary", None, "joined", "nan_not", "large", "nary", "zero_size", None,
+            "aligned"]
 N_PRESSURE = {"quick": (8, 1200), "thorough": (40, 4000)}
 
 
@@ -1260,6 +1329,16 @@ def floors(counters, tier):
                     ("leaf_on_column:dtype:uint8", 10)):
         if c(k, 0) < need:
             out.append("fewer than %d %s" % (need, k))
+    if c("nary_programs", 0) < 100:
+        out.append("fewer than 100 programs with many operands")
+    for n in (6, 7, 10, 13, 15, 18, 20, 33):
+        if c("nary_programs:operands:%d" % n, 0) < 3:
+            out.append("fewer than 3 n-ary programs with %d operands" % n)
+    for f in set(NARY_FORMS):
+        if c("nary_programs:form:" + f, 0) < 8:
+            out.append("fewer than 8 n-ary programs of form %s" % f)
+    if c("not_of_ordering_inequality_on_attribute_with_nan", 0) < 50:
+        out.append("fewer than 50 complements of ordering inequalities on an attribute containing NaN")
     if c("edit_steps:remove_group:last", 0) + c("edit_steps:remove_group:not_last", 0) < 10:
         out.append("fewer than 10 group removals")
     joined = sum(v for k, v in counters.items() if k.startswith("trees_with_leaf_kind:join_"))
